@@ -135,19 +135,26 @@ func recencySites(c *Ctx, rule string) {
 	// tie policy of table.Search
 	strict := false
 	if fn := c.Fn("lsm", "table.Search"); fn != nil {
-		for _, b := range fn.Blocks {
-			if ifi := ifOf(b); ifi != nil {
-				if bo, ok := ifi.Cond.(*ssa.BinOp); ok && (bo.Op == token.LSS || bo.Op == token.LEQ) {
-					if u, ok := bo.X.(*ssa.UnOp); ok && u.X == fn.Params[2] {
-						if call, ok := bo.Y.(*ssa.Call); ok && Named("kv.ParseTs")(call.Common()) {
-							strict = bo.Op == token.LSS
-							c.Pass(rule, key(fn, "tie-policy"), ifi.Pos(), 2, "a table hit replaces the running best only for a %s greater version ⇒ among equal versions the FIRST table visited wins", ifs(strict, "strictly", "non-strictly"))
-							if !strict {
-								c.Fail(rule, key(fn, "tie-policy#strict"), ifi.Pos(), 2, "table.Search accepts an equal version (<=): the last visited table wins ties, every visiting-order fact below is inverted")
-							}
-						}
+		// decided by order-sign evaluation: with candidate == best > 0, is the accepting clone reachable?
+		accepts := Calls(fn, false, Named("kv.NewEntryWithCF"))
+		if len(accepts) == 0 || len(fn.Params) < 3 {
+			c.Fail(rule, key(fn, "tie-policy"), fn.Pos(), 1, "cannot find the accepting path (kv.NewEntryWithCF) of table.Search")
+		} else {
+			mv := fn.Params[2]
+			env := &SignEnv{Depth: 2, Signs: map[string]int{"0:best": -1, "0:cand": -1, "best:cand": 0},
+				Role: func(v ssa.Value) string {
+					if call, ok := v.(*ssa.Call); ok && Named("kv.ParseTs")(call.Common()) {
+						return "cand"
 					}
-				}
+					if u, ok := v.(*ssa.UnOp); ok && u.Op == token.MUL && u.X == mv {
+						return "best"
+					}
+					return ""
+				}}
+			strict = !env.Reaches(fn, accepts[0].(ssa.Instruction))
+			c.Pass(rule, key(fn, "tie-policy"), accepts[0].Pos(), env.Visited, "a table hit replaces the running best only for a %s greater version ⇒ among equal versions the FIRST table visited wins", ifs(strict, "strictly", "non-strictly"))
+			if !strict {
+				c.Fail(rule, key(fn, "tie-policy#strict"), accepts[0].Pos(), env.Visited, "table.Search accepts an equal (non-zero) version: the last visited table wins ties, every visiting-order fact below is inverted")
 			}
 		}
 	}
@@ -384,6 +391,7 @@ func C01(c *Ctx) {
 	const r7 = "K2.table-cut-at-key-boundary"
 	tableCutGroup(c, r7)
 	seekGapGroup(c, "K2.seek-continues-into-next-block")
+	versionAccumulatorGroup(c, "K2.version-accumulator-orderings")
 	levelDisjointGroup(c, "K2.level-tables-disjoint")
 	const r6 = "K2.delete-and-expiry-semantics"
 	deleteSemanticsGroup(c, r6)
@@ -464,6 +472,7 @@ func C02(c *Ctx) {
 	const r4 = "K2.table-cut-at-key-boundary"
 	tableCutGroup(c, r4)
 	seekGapGroup(c, "K2.seek-continues-into-next-block")
+	versionAccumulatorGroup(c, "K2.version-accumulator-orderings")
 	levelDisjointGroup(c, "K2.level-tables-disjoint")
 	const r5 = "K1.compaction-keeps-every-entry"
 	compactionKeepsAllGroup(c, r5)
